@@ -9,6 +9,7 @@ open Petl.Gen
 
 def expectedC08 : List (String × String) := [
   ("file:comparison.py", "c46d05a1308c92ce"),
+  ("file:compat.py", "2a259e16acd200bc"),
   ("file:config.py", "142bde514c82c29d"),
   ("file:transform/basics.py", "ef1ded632cafe787"),
   ("file:transform/setops.py", "6dff26ed32585dcd"),
